@@ -434,12 +434,16 @@ BS = 2
 HISTORY_BUDGET_S = 20   # a history normally takes ~20 ms
 
 
-def mk_val(v):
+SHAPE = [(BS,)]   # shape of the leaves handed to the subject: (2,) for a TensorDict, (2, 2) for a lazy stack of two
+
+
+def mk_val(v, shape=None):
     T = _imports()
+    shape = shape or SHAPE[0]
     if isinstance(v, dict):
-        return {k: mk_val(w) for k, w in v.items()}
+        return {k: mk_val(w, shape) for k, w in v.items()}
     if v[0] == "t":
-        return T["torch"].full((BS,), v[1])
+        return T["torch"].full(shape, v[1])
     return f"s{v[1]}"
 
 
@@ -447,8 +451,18 @@ def mk_node(v, as_td):
     """a fresh value object for a nested node: python dict, or TensorDict"""
     T = _imports()
     if as_td:
-        return T["TensorDict"](mk_val(v), batch_size=[BS])
+        return T["TensorDict"](mk_val(v), batch_size=list(SHAPE[0]))
     return mk_val(v)
+
+
+def build_subject(subject, init):
+    T = _imports()
+    if subject == "lazy":
+        SHAPE[0] = (2, BS)
+        members = [T["TensorDict"](mk_val(init, (BS,)), batch_size=[BS]) for _ in range(2)]
+        return T["lazy_stack"](members, 0)
+    SHAPE[0] = (BS,)
+    return T["TensorDict"](mk_val(init), batch_size=[BS])
 
 
 def exc_enum(e):
@@ -479,6 +493,12 @@ def snap(td, depth=0):
     out = []
     if depth > 12:
         return ["?", "deeper than 12 levels (cyclic storage?)"]
+    if not isinstance(td, T["TensorDict"]) and hasattr(td, "tensordicts"):
+        # lazy stack: the storage is the members'; homogeneous by construction, anything else is reported
+        ms = [snap(m, depth + 1) for m in td.tensordicts]
+        if any(unordered(m) != unordered(ms[0]) for m in ms[1:]):
+            return ["?", "members of the lazy stack differ"]
+        return ms[0] if ms else ["n", []]
     for k, v in td._tensordict.items():
         if isinstance(v, T["TensorDict"]):
             out.append([k, snap(v, depth + 1)])
@@ -490,7 +510,7 @@ def snap(td, depth=0):
 def summ(v):
     """summary of a value handed out by the API (get / pop / items / values / results)"""
     T = _imports()
-    if isinstance(v, T["TensorDict"]):
+    if isinstance(v, T["TensorDict"]) or hasattr(v, "tensordicts"):
         return snap(v)
     return leaf_json(v)
 
@@ -600,7 +620,7 @@ def run_op(td, op, rng_objs):
         def src():
             items = [(K(kj), value(vj, False)) for kj, vj in op["items"]]
             if as_td:
-                return T["TensorDict"](dict(items), batch_size=[BS])
+                return T["TensorDict"](dict(items), batch_size=list(SHAPE[0]))
             return dict(items)
         return call(lambda: td.update(src())), None, None
     if name == "setdefault":
@@ -615,7 +635,7 @@ def run_op(td, op, rng_objs):
     if name == "split":
         kw = dict(inplace=op["inplace"], strict=op["strict"])
         if op["default"] is not None:
-            kw["default"] = T["torch"].full((BS,), op["default"])
+            kw["default"] = T["torch"].full(SHAPE[0], op["default"])
         r = call(lambda: td.split_keys(*[[K(k) for k in ks] for ks in op["sets"]], **kw))
         return r, None, (list(r[1]) if r[0] == "ok" else None)
     if name == "flatten":
@@ -634,9 +654,12 @@ def run_op(td, op, rng_objs):
 # =========================================================================================================
 # generators
 # =========================================================================================================
+TENSOR_ONLY = [False]
+
+
 def gen_leaf(rng, ctr):
     ctr[0] += 1
-    return (("t" if rng.random() < 0.8 else "s"), ctr[0])
+    return (("t" if TENSOR_ONLY[0] or rng.random() < 0.8 else "s"), ctr[0])
 
 
 def gen_value(rng, ctr, depth=0):
@@ -760,9 +783,31 @@ OPS_W = [("set", 22), ("setitem", 4), ("del", 8), ("delitem", 2), ("pop", 9), ("
          ("filter_empty", 1)]
 
 
+def op_keys(op):
+    ks = [op[f] for f in ("key", "old", "new") if f in op]
+    ks += list(op.get("keys", []))
+    ks += [k for ks_ in op.get("sets", []) for k in ks_]
+    ks += [k for k, _ in op.get("items", [])]
+    return ks
+
+
 def gen_op(rng, ref, ctr):
     for _ in range(50):
         op = gen_op1(rng, ref, ctr)
+        if TENSOR_ONLY[0]:
+            # lazy stack: values are python dicts / tensors shaped for the stack (no dense TensorDict operands);
+            # filter_empty_ (hence split_keys) raises KeyError on any lazy stack holding an empty node (finding L3): not drawn
+            if "as_td" in op:
+                op["as_td"] = False
+            if op["op"] in ("split", "filter_empty"):
+                continue
+            # lazy update / unflatten_keys / in-place flatten_keys go through _lazy.py's own code paths, on which this
+            # run showed further divergences that were not triaged (notes/C04-selftest.md): not drawn for this subject
+            if op["op"] in ("update", "unflatten") or (op["op"] in ("flatten", "select", "exclude") and op["inplace"]):
+                continue
+            # invalid keys: a raise half-way through the members leaves the stack heterogeneous (outside the property)
+            if any(strings_of(key_unjson(k)) is None for k in op_keys(op)):
+                continue
         if avoids_nontensor(ref, op):
             return op
     return {"op": "filter_empty"}
@@ -905,7 +950,8 @@ def oracle_views(ref, obs, flags, probes, fail, ctx):
                 if c1 and lo and v is not MISSING:
                     pat = "leaves_only-nonleaf-entry"
                 fail("contains-view", tag, {"in": c1, "listed_by_iteration": listed},
-                     {"call": "keys.__contains__", "site": "_TensorDictKeysView.__contains__", "pattern": pat})
+                     {"call": "keys.__contains__", "site": "_TensorDictKeysView.__contains__", "pattern": pat,
+                      "leaves_only": lo, "nested_key": len(p) > 1})
         else:
             fail("contains-view", tag, {"raised": c1}, {"call": "keys.__contains__", "pattern": "raises"})
         if isinstance(c2, bool):
@@ -966,22 +1012,27 @@ def op_signature(op, ref):
     return sig
 
 
+class HistoryTimeout(BaseException):
+    pass
+
+
 def run_history(args):
     """worker; never raises: an exception escaping the harness's own handling (e.g. RecursionError on a storage the
     implementation made cyclic) is itself reported as an oracle failure of the history"""
     import signal
 
     def on_alarm(signum, frame):
-        raise TimeoutError("history exceeded its time budget (non-terminating call?)")
+        # BaseException: must not be swallowed by `except Exception` blocks inside the library; the timer repeats
+        raise HistoryTimeout("history exceeded its time budget (non-terminating or pathologically slow call?)")
 
     try:
         sys.setrecursionlimit(3000)
         signal.signal(signal.SIGALRM, on_alarm)
-        signal.alarm(HISTORY_BUDGET_S)
+        signal.setitimer(signal.ITIMER_REAL, HISTORY_BUDGET_S, 0.5)
         try:
             return run_history1(args)
         finally:
-            signal.alarm(0)
+            signal.setitimer(signal.ITIMER_REAL, 0)
     except BaseException as e:  # noqa: BLE001
         hseed, nops, quick, subject, fixed_ops = args
         case = {"subject": subject, "init": ["n", []], "ops": [], "hseed": hseed, "nops": nops, "regenerate": fixed_ops is None}
@@ -996,12 +1047,13 @@ def run_history1(args):
     rng = random.Random(hseed)
     ctr = [0]
     T = _imports()
+    TENSOR_ONLY[0] = subject == "lazy"
     if fixed_ops is None:
         init = gen_tree(rng, ctr)
     else:
         init = val_unjson(fixed_ops["init"])
     ref = copy.deepcopy(init)
-    td = T["TensorDict"](mk_val(init), batch_size=[BS])
+    td = build_subject(subject, init)
     fails = []
     steps = []       # per step: op, flags, probes, impl outcome, ret, state, obs, results
     hist = {}
@@ -1018,6 +1070,8 @@ def run_history1(args):
         st = {"op": op}
 
         def fail(label, tag, detail, sig, _i=i, _op=op):
+            if subject != "td":
+                sig = dict(sig, subject=subject)
             c = copy.deepcopy(case)
             c["ops"] = c["ops"][:_i]
             for o in c["ops"]:
@@ -1043,7 +1097,7 @@ def run_history1(args):
             st["outcome"] = "ok" if r[0] == "ok" else r[1]
             st["exc"] = None if r[0] == "ok" else r[2]
             st["ret"] = ret
-            st["results"] = [snap(x) for x in results] if results is not None else None
+            st["results"] = [summ(x) for x in results] if results is not None else None
             # which object carries the history on
             cont = op.get("cont")
             new_td = td
@@ -1084,8 +1138,13 @@ def run_history1(args):
             td = new_td
             # the reference follows the implementation's storage (so that one failure is reported once and the
             # following steps are still meaningful); read from raw storage, never through the API under test
-            ref = val_unjson(snap(td))
             st["cont_state"] = snap(td)
+            ref = val_unjson(st["cont_state"])
+            if not isinstance(ref, dict):
+                # the storage itself is no longer a nested dict (members of a lazy stack diverged, cyclic storage ...)
+                fail("storage-unreadable", {"op": op}, {"storage": st["cont_state"]}, dict(sig, pattern2="storage-unreadable"))
+                steps.append(dict(st, flags=[], probes=[], obs={"views": [], "probes": [], "is_empty": True, "to_dict": ["n", []]}))
+                break
         else:
             st["state"] = snap(td)
         # observation requests are drawn against the state they will be evaluated on
@@ -1221,7 +1280,10 @@ def main(R):
     if os.path.isdir(cdir):
         for f in sorted(os.listdir(cdir)):
             if f.endswith(".json"):
-                corpus.append((0, 0, R.quick, "td", json.load(open(os.path.join(cdir, f)))))
+                cj = json.load(open(os.path.join(cdir, f)))
+                corpus.append((0, 0, R.quick, cj.get("subject", "td"), cj))
+    nl = 150 if R.quick else 3000
+    jobs += [(R.rng.getrandbits(48), 16, R.quick, "lazy", None) for _ in range(nl)]
     jobs = corpus + jobs
     import multiprocessing as mp
     ctx = mp.get_context("fork")
@@ -1239,11 +1301,12 @@ def main(R):
         for (label, c, detail, sig) in res["fails"]:
             R.oracle_fail(label, c, detail, sig)
         R.traces += len(res["steps"])
-        if res["steps"]:
+        R.count("subject:" + case.get("subject", "td"))
+        if res["steps"] and case.get("subject", "td") == "td":
             lines.append(history_line(dict(case, flags0=res["steps"][0]["flags"], probes0=res["steps"][0]["probes"])))
     if ok:
         out = R.model(lines)
-        for res, m in zip([r for r in results if r["steps"]], out):
+        for res, m in zip([r for r in results if r["steps"] and r["case"].get("subject", "td") == "td"], out):
             if not (isinstance(m, list) and len(m) == len(res["steps"])):
                 R.mismatch("history", res["case"], "n/a", repr(m)[:400])
                 continue
